@@ -204,8 +204,15 @@ func (cr *CheckRun) VerifyEncoded(e *FuncEnc, entry string, filter func(o *Oblig
 	all := e.Obls
 	e.Obls = mine
 	tv0 := time.Now()
+	ctxCh := make(chan string, 1)
+	go func() { ctxCh <- e.ContextConsistent(cr.Scratch) }()
 	r := e.Verify(cr.Scratch, timeout)
 	e.Obls = all
+	if st := <-ctxCh; st == "unsat" {
+		cr.mu.Lock()
+		cr.EngineErrors = append(cr.EngineErrors, e.Name+": the assumptions of the encoding are contradictory (every obligation of this function would be proved vacuously)")
+		cr.mu.Unlock()
+	}
 	if os.Getenv("GOAGVC_DEBUG_TIME") != "" {
 		fmt.Printf("TIME %6.1fs %4d obls %s\n", time.Since(tv0).Seconds(), len(mine), e.Name)
 	}
